@@ -22,8 +22,10 @@ import (
 )
 
 var typeNamePool = []string{"Foo", "Bar", "Baz", "Qux", "Item", "Foo", "Bar", "Status", "Kind", "Entry", "V1", "Gen"}
-var fieldNamePool = []string{"id", "name", "foo", "bar", "foo_bar", "baz_2", "item_id", "x", "value", "key", "kind", "status", "a_b_c", "fooBar", "FOO", "_lead", "trail_", "dbl__us", "n1", "foo_1bar"}
-var pkgPool = []string{"gen.v1", "gen.v1", "a.b.v1", "foo.v1", "gen.foo.v1", "x"}
+var fieldNamePool = []string{"id", "name", "foo", "bar", "foo_bar", "baz_2", "item_id", "x", "value", "key", "kind", "status", "a_b_c", "fooBar", "FOO", "_lead", "trail_", "dbl__us", "n1", "foo_1bar", "google", "j5"}
+// "x.google.v1" / "a.j5.v1": a parent package named like the first component of the packages the
+// file refers to (google.protobuf.*, j5.types.*, option extensions j5.ext.v1.*, buf.validate.*)
+var pkgPool = []string{"gen.v1", "gen.v1", "a.b.v1", "foo.v1", "gen.foo.v1", "x", "x.google.v1", "a.j5.v1", "a.buf.j5.v1"}
 
 var hardStrings = []string{
 	"", "plain", "with space", `quo"te`, `back\slash`, "new\nline", "tab\there", "cr\rhere", "nul\x00byte", "del\x7f",
